@@ -38,6 +38,8 @@ pub mod pt {
     pub const W_UNLOCK: u32 = 14;
     /// acquire_writer_token: about to increment `active_writers`
     pub const W_INC: u32 = 15;
+    /// acquire_writer_token: refused inside the critical section, about to release the guard
+    pub const W_BUSY_UNLOCK: u32 = 16;
     /// release_reader_token: about to decrement `active_readers`
     pub const DEC_AR: u32 = 20;
     /// release_writer_token: about to decrement `active_writers`
